@@ -95,8 +95,26 @@ def run_case(case):
             V_ALIGN = [["^", "top"], ["-", "middle", None], ["_", "bottom"]]
             ha = H_ALIGN[p["ha"]][case.get("pres", 0) % len(H_ALIGN[p["ha"]])]
             va = V_ALIGN[p["va"]][case.get("pres", 0) % len(V_ALIGN[p["va"]])]
-            fmt = image._check_formatting(ha, p["W"], va, p["H"])
-            res["out"] = image._format_render(R, *fmt)
+            if case.get("via") == "format":
+                # through the format-spec route: "[h_align][width][.[v_align][height]]"; width 0 or
+                # absent = terminal width, height absent = terminal height - 2, explicit 0 =
+                # terminal height
+                pres = case.get("pres", 0)
+                hc = ["<", "|", ">"][p["ha"]] if not (p["ha"] == 1 and pres % 3 == 2) else ""
+                vc = ["^", "-", "_"][p["va"]] if not (p["va"] == 1 and pres % 3 == 2) else ""
+                assert p["W"] >= 0 and (p["H"] >= 0 or p["H"] == -2)
+                ws = str(p["W"]) if p["W"] > 0 else ("0" if pres % 2 else "")
+                hs = "" if p["H"] == -2 else str(p["H"])
+                spec = hc + ws + ("." + vc + hs if vc + hs else "")
+                tail = ""
+                if case["render"]["style"] != "block":
+                    tail = "+" + {"lines": "L", "whole": "W"}[case["render"]["args"].get("method", "lines")]
+                res["inner"] = format(image, "1.1" + tail)
+                res["out"] = format(image, spec + tail)
+                res["spec"] = spec + tail
+            else:
+                fmt = image._check_formatting(ha, p["W"], va, p["H"])
+                res["out"] = image._format_render(R, *fmt)
             res["dims"] = None
         return res
     except Exception as e:
